@@ -495,6 +495,47 @@ def h_climdiv(ctx):
     ctx.outcome("zeros=%d" % len(zeros))
     ctx.nontrivial(len(zeros) > 0)
 
+def h_ncint(ctx):
+    """NetCDF variables of an integer type (packed observations): -999 written as a number, and masked cells, are missing"""
+    import verif.input
+    import verif.data
+    seed = core.seed()
+    dtype = ctx.choose("dtype", ("i4", "i2"), free=True)
+    locs = gen.std_locs(2, seed)
+    inputs = []
+    for k, name in enumerate(("A", "B")):
+        ai = gen.AInput(name, [T0, T0 + DAY], [0.0, 24.0], locs, variable="T", units="K")
+        ai.fields["obs"] = {pos: float((n_ * 3 + 2) % 11) for n_, pos in enumerate(ai.positions())}
+        ai.fields["fcst"] = {pos: float((n_ * 5 + k * 4 + 1) % 13) for n_, pos in enumerate(ai.positions())}
+        inputs.append(ai)
+    marks = {}
+    P = inputs[0].positions()
+    for (ii, f, pos) in [(0, "obs", p_) for p_ in P[:4]] + [(0, "fcst", p_) for p_ in P[4:]] + [(1, "fcst", P[1]), (1, "obs", P[6])]:
+        e = ctx.choose("miss:%d:%s:%r" % (ii, f, pos), (None, "-999", "masked"))
+        if e is not None:
+            marks[(ii, f, pos)] = e
+    marked = [a.copy() for a in inputs]
+    for (ii, f, pos) in marks:
+        del marked[ii].fields[f][pos]
+    d = os.path.join(H.scratch(), "c04int")
+    os.makedirs(d, exist_ok=True)
+    objs = []
+    for k, ai in enumerate(marked):
+        p = os.path.join(d, "%s-%d.nc" % (ai.name, os.getpid()))
+        gen.netcdf_file(ai, p, missing_encs={(f, pos): e for (ii, f, pos), e in marks.items() if ii == k}, dtype=dtype)
+        objs.append(verif.input.Netcdf(p))
+    kind, data, site, out = H.quiet_call(verif.data.Data, objs)
+    if kind != "ok":
+        ctx.fail("ncint:data-%s:%s" % (kind, site), stdout=out[-200:])
+        return
+    ref = RD.RefData(marked)
+    sig = CD.check_requests(ctx, data, ref, [["obs", "fcst"], ["fcst"], ["obs"]], AXES + ["all"], "ncint")
+    if any(e == "-999" for e in marks.values()):
+        ctx.flag("literal--999")
+    ctx.observe((dtype, tuple(sorted(marks.items())), sig))
+    ctx.outcome("marks=%d" % len(marks))
+    ctx.nontrivial(len(marks) > 0)
+
 
 def plan(tier):
     q = tier == "quick"
@@ -507,7 +548,7 @@ def plan(tier):
                                  **({"encs_first": ["nan", "masked", "fill", "-inf"]} if q else {}))),
          ("text-struct", h_struct, {"via": "text"}), ("nc-struct", h_struct, {"via": "nc"}),
          ("arrays", h_arrays, {"lengths": [2, 3] if q else [2, 3, 4], "full_alphabet": not q}),
-         ("clim-divide", h_climdiv, {})]
+         ("clim-divide", h_climdiv, {}), ("nc-int", h_ncint, {})]
     return p
 
 
@@ -517,7 +558,14 @@ def run(tier, only=None):
         if only and only != name:
             continue
         t0 = time.time()
-        st = explore.explore(h, mode="full", params=params, repo_root=core.REPO, time_cap=(240 if tier == "quick" else 3000))
+        if name not in ("nc-int", "clim-divide"):
+            st = explore.explore(h, mode="full", params=params, repo_root=core.REPO, time_cap=(240 if tier == "quick" else 3000))
+        if name == "nc-int":
+            st = explore.explore(h, mode="dev", k=(1 if tier == "quick" else 2), params=params, repo_root=core.REPO, time_cap=(240 if tier == "quick" else 3000))
+            subs.append(core.Sub.from_e1(name, st, bound="integer NetCDF variables (i4, i2) x dev(%d) over 10 (input, obs|fcst, cell) x {-999 as a number, masked}" % (1 if tier == "quick" else 2),
+                                         rule="one execution = two inputs stored in an integer type with the marked cells encoded; every request compared with the reference",
+                                         required_flags=("literal--999",), wall=time.time() - t0))
+            continue
         if name == "clim-divide":
             st = explore.explore(h, mode="dev", k=(1 if tier == "quick" else 2), params=params, repo_root=core.REPO, time_cap=(240 if tier == "quick" else 3000))
             subs.append(core.Sub.from_e1(name, st, bound="dev(%d) over the 8 cases at which the climatology is exactly 0, -C" % (1 if tier == "quick" else 2),
